@@ -308,9 +308,9 @@ instance (tbl m r) : Decidable (LinkOk tbl m r) := by unfold LinkOk; exact infer
 
 end Huginn.TcpSig.Spec
 
-/-! ### known-finding classes (DESIGN §7 C03 (a)–(c), §8 #3–#5); (d) ecn twice, (e) window classifier
-header, (h) saturated MTU divisor and (g) `bad` never reported were repaired in /repo
-(fixes/C03-*.patch). What is left of (g) is class (i) below. -/
+/-! ### known-finding classes (DESIGN §7 C03 (a)–(c), §8 #3–#5) — the three the golden snapshot pins.
+(d) ecn twice, (e) window classifier header, (h) saturated MTU divisor, (g) `bad` never reported and
+(i) option-derived quirks listed twice in a malformed area were repaired in /repo (fixes/C03-*.patch). -/
 namespace Huginn.KF.C03
 open Huginn.TcpSig.Spec Huginn.TcpExtract
 
@@ -335,24 +335,13 @@ def mtuFromHeaderLengths (f : Fields) : Prop :=
   onOpt (parseArea f.tcp.opts) False fun a => mssValues a ≠ []
 instance (f) : Decidable (mtuFromHeaderLengths f) := by unfold mtuFromHeaderLengths; exact inferInstance
 
-/-- (i) left over from (g): in a malformed option area the code keeps walking past the malformed option
-and reads the remaining bytes as further options; a timestamp / window-scale option or an
-end-of-options marker met a second time then lists `ts1-` / `ts2+` / `exws` / `opt+` twice (quirks are a
-set). Stated on what the walk emits: the option-derived quirks of the walk contain a duplicate.
-(In a well-formed area a repeated timestamp / window-scale option makes the segment `Ambiguous`, i.e.
-unspecified; a malformed area has no `Area` to say that of, so the segment is in the domain.) -/
-def malformedRepeatsQuirk (f : Fields) : Prop :=
-  parseArea f.tcp.opts = none ∧ ¬ (walk (tcpType f.tcp.flags) f.tcp.opts {}).quirks.Nodup
-instance (f) : Decidable (malformedRepeatsQuirk f) := by unfold malformedRepeatsQuirk; exact inferInstance
-
 def any (f : Fields) : Prop :=
-  optionsAfterEol f ∨ nonHandshakeAsServer f ∨ mtuFromHeaderLengths f ∨ malformedRepeatsQuirk f
+  optionsAfterEol f ∨ nonHandshakeAsServer f ∨ mtuFromHeaderLengths f
 instance (f) : Decidable (any f) := by unfold any; exact inferInstance
 
 def names (f : Fields) : List String :=
   (if optionsAfterEol f then ["KF.C03.optionsAfterEol"] else []) ++
   (if nonHandshakeAsServer f then ["KF.C03.nonHandshakeAsServer"] else []) ++
-  (if mtuFromHeaderLengths f then ["KF.C03.mtuFromHeaderLengths"] else []) ++
-  (if malformedRepeatsQuirk f then ["KF.C03.malformedRepeatsQuirk"] else [])
+  (if mtuFromHeaderLengths f then ["KF.C03.mtuFromHeaderLengths"] else [])
 
 end Huginn.KF.C03
